@@ -953,11 +953,19 @@ impl ErasedNode for Node {
     }
     fn run_on_update_handlers(&self, node_update: NodeUpdateDelayed, now: StabilisationNum) {
         let input = self.erased();
-        let mut ouh = self.on_update_handlers.borrow_mut();
+        /* A handler may register a further handler on this very node (see the comment in
+        [OnUpdateHandler::run]: it then first runs at the next stabilisation). Check the handlers
+        out of the cell while they run, so that [add_on_update_handler] does not find it
+        borrowed. */
+        let mut ouh = std::mem::take(&mut *self.on_update_handlers.borrow_mut());
         for handler in ouh.iter_mut() {
             handler.run(self, node_update, now)
         }
-        drop(ouh);
+        // handlers registered in the meantime come after the ones that were there
+        let mut cell = self.on_update_handlers.borrow_mut();
+        ouh.append(&mut cell);
+        *cell = ouh;
+        drop(cell);
         let observers = self.observers.borrow();
         for (_id, obs) in observers.iter() {
             let Some(obs) = obs.upgrade() else { continue };
